@@ -5,13 +5,21 @@ apply_smoothing, find_omen_level, calc_omen_keyspace, save_omen_rules_to_disk)
 driven in-process as run_trainer.py drives them; the real OmenScorer on the
 written directory; the real guesser loader (load_rules) + MarkovCracker per
 target level.  Model: OmenLevel.v (trainer_level, writers, scorer readers +
-scorer_level, load_g into OmenSpec's record)."""
+scorer_level, load_g into OmenSpec's record).
+
+Stage "full" (harness/omen_full.py): rulesets trained by the real run_trainer on
+lists that mix ordinary passwords with e-mail / web site looking strings; the
+level the scorer REPORTS is the 4th field of PCFGPasswordScorer.parse (object
+built as password_scorer.py builds it) and the 4th column password_scorer.py
+prints; both are compared with the trainer's level, with the level at which the
+MarkovCracker emits the string, and with scorer_level of the model."""
 import json
 import os
 import time
 
 import common
 import omen_level as ol
+import omen_full as of
 
 ID = "C11"
 TRUSTED = [
@@ -40,6 +48,9 @@ TRUSTED = [
     "with its own float arithmetic, so the model's binary64 probi is compared bit for bit",
     "guesser level of a string = the target level at which the real MarkovCracker emits it (levels enumerated completely "
     "under a size/time cap; undecided strings are counted, not guessed)",
+    "the level the scorer reports = 4th field of PCFGPasswordScorer.parse on the object built in password_scorer.py's order "
+    "(limit 0, max OMEN level 9) and the 4th tab-separated column password_scorer.py writes (-o file / stdout) when run on a "
+    "scratch copy of the code tree; in the model it is scorer_level (the detectors cannot change it)",
 ]
 ASSUMES = [
     "wf_ttab: keys of the trainer's grammar are distinct, all of length ngram-1, letters distinct per key, "
@@ -130,6 +141,110 @@ def counts_oracle(T, G, E, replay_base):
                         "replay": dict(replay_base, string=None)})
             break
     return vio
+
+
+def reported_oracle(T, P, p_err, E, cands, replay_base):
+    """The level the scorer REPORTS (4th field of PCFGPasswordScorer.parse) against the trainer's level and against
+    the level at which the real MarkovCracker emits the string."""
+    vio, rows = [], []
+    if P is None:
+        vio.append({"sig": "C11:pcfg-scorer-load-failed", "what": "PCFGPasswordScorer cannot be built (as password_scorer.py "
+                    "builds it) on the ruleset the trainer wrote: %s" % p_err, "replay": dict(replay_base, string=None)})
+        return vio, rows
+    for s, why in cands:
+        t = level_opt(T.trainer_level(s))
+        v, cat = of.report(P, s)
+        if cat is None:
+            vio.append({"sig": "C11:pcfg-scorer-raises:" + str(v).split(" ")[0], "what": "PCFGPasswordScorer.parse(%r): %s"
+                        % (s, v), "replay": dict(replay_base, string=s)})
+            continue
+        r = level_opt(v)
+        rows.append({"s": s, "why": why + "/reported", "trainer": t, "scorer": r, "guesser": "unknown", "category": cat})
+        if r != t:
+            vio.append({"sig": "C11:scorer-reports-differ:trainer:" + str(cat), "what": "string %r (%s): trainer level %r, but "
+                        "PCFGPasswordScorer.parse reports OMEN level %r (category %r)" % (s, why, t, r, cat),
+                        "replay": dict(replay_base, string=s)})
+        decided, hits = ol.guesser_level(s, E)
+        if hits and hits[0] != r:
+            vio.append({"sig": "C11:scorer-reports-differ:guesser:" + str(cat), "what": "string %r (%s): the MarkovCracker "
+                        "emits it at level %r, but PCFGPasswordScorer.parse reports OMEN level %r (category %r)"
+                        % (s, why, hits[0], r, cat), "replay": dict(replay_base, string=s)})
+        elif not hits and r is not None and r in E and E[r][1]:
+            vio.append({"sig": "C11:scorer-reports-differ:guesser:" + str(cat), "what": "string %r (%s): PCFGPasswordScorer.parse "
+                        "reports OMEN level %r (category %r), but the complete MarkovCracker output of level %r does not "
+                        "contain it" % (s, why, r, cat, r), "replay": dict(replay_base, string=s)})
+    return vio, rows
+
+
+def cli_strings(rng, cands, rows, enc, n):
+    """Input of one password_scorer.py run: e-mail / web site looking strings that have a level first, then the rest."""
+    cat = {r["s"]: (r["category"], r["trainer"]) for r in rows}
+    ok = [s for s, _ in cands if of.cli_safe(s, enc)]
+    first = [s for s in ok if cat.get(s, ("", None))[0] in ("e", "w") and cat[s][1] is not None]
+    rest = [s for s in ok if s not in set(first)]
+    rng.shuffle(first)
+    rng.shuffle(rest)
+    return (first[:n // 2] + rest)[:n]
+
+
+def cli_oracle(T, run, replay_base):
+    """The level column password_scorer.py prints, against the trainer's level of the string printed beside it."""
+    import trainer_io as tio
+    vio = []
+    rows, err = of.finish_cli(T, run)
+    if err:
+        vio.append({"sig": "C11:scorer-cli-failed", "what": "password_scorer.py (%s) on the ruleset the trainer wrote: %s"
+                    % (run["cmd"], err), "replay": dict(replay_base, string=None, cli=run["strings"])})
+        return vio, 0
+    expected, _, _ = tio.read_passwords(run["inp"], T.cfg["encoding"], False)
+    if [r[0] for r in rows] != list(expected):
+        vio.append({"sig": "C11:scorer-cli-lines", "what": "password_scorer.py reports on %d strings %r..., its reader yields %d "
+                    "%r..." % (len(rows), [r[0] for r in rows][:3], len(expected), list(expected)[:3]),
+                    "replay": dict(replay_base, string=None, cli=run["strings"])})
+    for pw, cat, lv in rows:
+        try:
+            v = level_opt(int(lv))
+        except ValueError:
+            v = "not a number: %r" % lv
+        t = level_opt(T.trainer_level(pw))
+        if v != t:
+            vio.append({"sig": "C11:scorer-cli-reports-differ:" + cat, "what": "string %r: trainer level %r, but password_scorer.py "
+                        "prints OMEN level %r (category %r)" % (pw, t, v, cat), "replay": dict(replay_base, string=pw, cli=[pw])})
+    return vio, len(rows)
+
+
+def explore_full(ctx, cfg, sc_dir, idx, budget, n_cli):
+    """Stage "full": real run_trainer -> OmenScorer, PCFGPasswordScorer, password_scorer.py, load_rules + MarkovCracker."""
+    T = of.FullTrained(cfg, os.path.join(sc_dir, "f%d" % idx))
+    if not T.usable:
+        return None
+    replay_base = {"training": cfg}
+    sc, sc_err = T.load_scorer()
+    P, p_err = of.build_pcfg_scorer(T.base_dir, cfg.get("limit", 0), cfg.get("max_omen", 9))
+    G, g_err = T.load_guesser()
+    E, errs = {}, []
+    if G is not None:
+        tl = [T.trainer_level(p) for p in set(T.valid)]
+        top = min(max([l for l in tl if l >= 0] + [2]) + 1, 14)
+        E = ol.enumerate_sets(G, range(0, top + 1), cap=budget["cap"], seconds=budget["per_level"],
+                              total_seconds=budget["per_model"])
+        errs = [(L, E[L][3]) for L in E if E[L][3]]
+        for L, _ in errs:
+            E.pop(L)
+    cands = of.candidates(ctx.rng, T, E)
+    vio, rows = three_way(T, sc, sc_err, G, g_err, E, cands, replay_base)
+    v2, rows2 = reported_oracle(T, P, p_err, E, cands, replay_base)
+    vio += v2
+    vio += counts_oracle(T, G, E, replay_base)
+    if G is not None and errs:
+        vio.append({"sig": "C11:guesser-raises", "what": "MarkovCracker raises at target level %d on the ruleset the trainer "
+                    "wrote: %s" % errs[0], "replay": dict(replay_base, string=None)})
+    run = None
+    if P is not None and n_cli:
+        strings = cli_strings(ctx.rng, cands, rows2, cfg["encoding"], n_cli)
+        if strings:
+            run = of.start_cli(T, "F%d" % idx, strings, to_file=idx % 2 == 0)
+    return T, sc, G, E, cands, rows, vio, rows2, run
 
 
 def explore(ctx, cfg, sc_dir, idx, budget):
@@ -262,7 +377,7 @@ TRAIN_CODES = {1: "the alphabet (AlphabetGenerator)", 2: "AlphabetLookup.parse r
                6: "the smoothed tables (counts -> levels: keys, letters, order, IP / EP / CP / LN levels)"}
 
 CODES = {1: "trainer table invariants (wf_ttabb / closedb / levels <= 10)", 2: "IP.level lines", 3: "EP.level lines",
-         4: "CP.level lines", 5: "LN.level lines", 6: "a string's level (trainer / scorer / guesser model vs implementation)",
+         4: "CP.level lines", 5: "LN.level lines", 6: "a string's level (trainer / scorer [OmenScorer.parse, or the level PCFGPasswordScorer.parse reports] / guesser: model vs implementation)",
          7: "level_strings of the model vs the MarkovCracker output of a level", 8: "omen_levels_count (pass 3)",
          9: "whether the scorer / the guesser could load the directory at all (framing, codec)"}
 
@@ -352,6 +467,80 @@ def run(ctx):
             # a constant of a failed extractor plugin is missing: no correspondence case, the oracle still ran
             missing_consts.add(str(e))
 
+    # ---- stage "full": the real run_trainer, the level PCFGPasswordScorer.parse / password_scorer.py report
+    full = {"models": 0, "unusable_lists": 0, "kinds": {}, "ngram": {}, "encodings": {}, "alphabet_size": {},
+            "strings_reported": 0, "category": {}, "mail_or_site_with_level": 0, "mail_or_site_without_level": 0,
+            "reported_by_origin": {}, "cli_runs": 0, "cli_lines": 0, "guesser_decided": 0,
+            "limit": {}, "max_omen": {}, "reported_above_max_omen": 0}
+    dist["full"] = full
+    n_full = ctx.scale(48, 300)
+    n_cli_models = ctx.scale(12, 60)
+    fbudget = {"cap": ctx.scale(4000, 8000), "per_level": 0.25, "per_model": ctx.scale(0.9, 1.0)}
+    t_full = time.time()
+    fkinds = ["full_mixed", "full_mailweb", "full_small_alphabet", "full_plain", "full_mixed", "full_mailweb"]
+    pending = []
+    for i in range(n_full):
+        cfg = of.gen_full_training(ctx.rng, fkinds[i % len(fkinds)] if i < 2 * len(fkinds) else None)
+        r = explore_full(ctx, cfg, sc_dir, i, fbudget, 40 if i < n_cli_models else 0)
+        if r is None:
+            full["unusable_lists"] += 1
+            continue
+        T, sc, G, E, cands, rows, v, rows2, cli = r
+        vio += v
+        if cli is not None:
+            pending.append((T, cli, {"training": cfg}))
+        if len(pending) >= 6:
+            T0, cli0, rb0 = pending.pop(0)
+            v0, nl = cli_oracle(T0, cli0, rb0)
+            vio += v0
+            full["cli_runs"] += 1
+            full["cli_lines"] += nl
+        full["models"] += 1
+        for k, val in (("kinds", cfg["kind"]), ("ngram", cfg["ngram"]), ("encodings", cfg["encoding"]),
+                       ("alphabet_size", cfg["alphabet_size"]), ("limit", cfg["limit"]), ("max_omen", cfg["max_omen"])):
+            full[k][str(val)] = full[k].get(str(val), 0) + 1
+        dist["scorer_loaded"] += sc is not None
+        dist["guesser_loaded"] += G is not None
+        ng, ml = T.trainer.ngram, T.trainer.max_length
+        tkey = json.dumps(T.tables, sort_keys=True)
+        for row in rows + rows2:
+            dist["strings"] += 1
+            rep = "category" in row
+            key = (tkey, row["s"], rep)
+            if key not in seen:
+                seen.add(key)
+                if row["trainer"] is not None or ng <= len(row["s"]) <= ml:
+                    nontrivial += 1
+            if not rep:
+                dist["by_origin"][row["why"]] = dist["by_origin"].get(row["why"], 0) + 1
+                full["guesser_decided"] += row["guesser"] != "unknown"
+                continue
+            full["strings_reported"] += 1
+            full["category"][row["category"]] = full["category"].get(row["category"], 0) + 1
+            full["reported_by_origin"][row["why"]] = full["reported_by_origin"].get(row["why"], 0) + 1
+            full["reported_above_max_omen"] += row["trainer"] is not None and row["trainer"] > cfg["max_omen"]
+            if row["category"] in ("e", "w"):
+                full["mail_or_site_with_level" if row["trainer"] is not None else "mail_or_site_without_level"] += 1
+        if len(samples) < 7 and rows2:
+            ew = [x for x in rows2 if x["category"] in ("e", "w") and x["trainer"] is not None]
+            samples.append({"kind": cfg["kind"], "ngram": cfg["ngram"], "encoding": cfg["encoding"], "alphabet": T.alphabet,
+                            "training": cfg["passwords"][:6], "rows": (ew[:4] + rows2[:3])})
+        try:
+            # the model is evaluated on a part of the rows (the oracles above saw all of them): what the scorer reports
+            # for e-mail / web site looking strings first
+            rows2m = sorted(rows2, key=lambda x: (x["category"] not in ("e", "w"), x["trainer"] is None))[:200]
+            cases.append(coq_case(T, sc, G, E, rows[:200] + rows2m, consts))
+            case_cfg.append(cfg)
+        except KeyError as e:
+            missing_consts.add(str(e))
+    for T0, cli0, rb0 in pending:
+        v0, nl = cli_oracle(T0, cli0, rb0)
+        vio += v0
+        full["cli_runs"] += 1
+        full["cli_lines"] += nl
+
+    full["seconds"] = round(time.time() - t_full, 1)
+
     # ---- correspondence: Coq evaluates the models on the same tables / strings
     per = 6
     shards = []
@@ -419,19 +608,27 @@ def run(ctx):
             "seen length are smoothed to the cap level 10) trained in-process with the real trainer objects and written by the real writer; per model "
             "the candidate strings are the training passwords, members of enumerated levels, walks of every boundary length "
             "(0, 1, ngram-1, ngram, ngram+1, max-1, max, max+1, max+2), foreign-character and one-character mutations; each is "
-            "put to find_omen_level, OmenScorer.parse and the per-level MarkovCracker output; non-trivial = the string has a "
-            "level or is rejected for a reason other than its length; distinct by (tables, string)")
+            "put to find_omen_level, OmenScorer.parse and the per-level MarkovCracker output; stage 'full': lists of 6-22 distinct "
+            "strings (ordinary word+digit passwords, e-mail addresses, web sites with www./http:// prefixes, tails, upper case; "
+            "n-gram 2-5, alphabet 10-100, utf-8 / latin-1 / cp1252; scorer --limit 0..0.01, --max_omen 0..12) trained by the real run_trainer; per ruleset the same "
+            "candidates plus recombined / unseen / too long / too short / foreign-character e-mail and web site looking strings "
+            "are ALSO put to PCFGPasswordScorer.parse (built as password_scorer.py builds it) whose 4th field is compared with "
+            "the trainer's level, the MarkovCracker's level and the model, and up to 40 of them go through password_scorer.py "
+            "itself (-o file / stdout alternating), whose level column is compared with the trainer's level; non-trivial = the "
+            "string has a level or is rejected for a reason other than its length; distinct by (tables, string, which scorer "
+            "entry point)")
     if vio:
         vio = shrink_all(ctx, vio)
     return {"evaluations": dist["strings"], "distinct_nontrivial": nontrivial, "rule": rule, "samples": samples,
             "corr": corr, "violations": vio, "dist": dist}
 
 
-def check_one(rng, cfg, string, budget):
+def check_one(rng, cfg, string, budget, cli=None):
     """The three-way oracle on one training configuration (and one string, or generated candidates)."""
     sc_dir = common.scratch()
+    is_full = cfg.get("stage") == "full"
     try:
-        T = ol.Trained(cfg, os.path.join(sc_dir, "r"))
+        T = of.FullTrained(cfg, os.path.join(sc_dir, "r")) if is_full else ol.Trained(cfg, os.path.join(sc_dir, "r"))
     except ZeroDivisionError:
         return []
     if not T.usable:
@@ -452,10 +649,21 @@ def check_one(rng, cfg, string, budget):
         if errs:
             vio.append({"sig": "C11:guesser-raises", "what": "MarkovCracker raises at target level %d: %s" % errs[0],
                         "replay": {"training": cfg, "string": None}})
-    cands = [(string, "replay")] if string is not None else ol.candidates(rng, T, E)
+    cands = [(string, "replay")] if string is not None else (of.candidates if is_full else ol.candidates)(rng, T, E)
     v, _ = three_way(T, sc, sc_err, G, g_err, E, cands, {"training": cfg})
     vio += v
     vio += counts_oracle(T, G, E, {"training": cfg})
+    if is_full:
+        P, p_err = of.build_pcfg_scorer(T.base_dir, cfg.get("limit", 0), cfg.get("max_omen", 9))
+        v, rows2 = reported_oracle(T, P, p_err, E, cands, {"training": cfg})
+        vio += v
+        if cli and P is not None:
+            strings = [x for x in cli if of.cli_safe(x, cfg["encoding"])] if isinstance(cli, list) else \
+                cli_strings(rng, cands, rows2, cfg["encoding"], 40)
+            for to_file in (True, False):
+                if strings:
+                    v, _ = cli_oracle(T, of.start_cli(T, "R%d" % os.getpid(), strings, to_file), {"training": cfg})
+                    vio += v
     return vio
 
 
@@ -473,10 +681,12 @@ def shrink_all(ctx, vio, seconds_each=2.0, max_sigs=4):
     for sig, v in list(by.items())[:max_sigs]:
         s = v["replay"].get("string")
 
-        def still(c, sig=sig, s=s):
-            return any(x["sig"] == sig for x in check_one(ctx.rng, c, s, small))
-        cfg2 = ol.shrink_training(v["replay"]["training"], still, seconds_each)
-        hits = [x for x in check_one(ctx.rng, cfg2, s, small) if x["sig"] == sig]
+        cli = v["replay"].get("cli") if "scorer-cli" in sig else None
+
+        def still(c, sig=sig, s=s, cli=cli):
+            return any(x["sig"] == sig for x in check_one(ctx.rng, c, s, small, cli))
+        cfg2 = ol.shrink_training(v["replay"]["training"], still, seconds_each * (2 if cli else 1))
+        hits = [x for x in check_one(ctx.rng, cfg2, s, small, cli) if x["sig"] == sig]
         front.append(hits[0] if hits else v)
     return front + vio
 
@@ -485,4 +695,5 @@ def replay(ctx, data):
     inp = data.get("input") or {}
     if "training" not in inp:
         return []
-    return check_one(ctx.rng, inp["training"], inp.get("string"), {"cap": 50000, "per_level": 5.0, "per_model": 30.0})
+    return check_one(ctx.rng, inp["training"], inp.get("string"), {"cap": 50000, "per_level": 5.0, "per_model": 30.0},
+                     cli=inp.get("cli") or True)
